@@ -91,6 +91,7 @@ def strategy():
 
 
 SECURE = "ts-plain-secure"
+UTMP = None
 
 
 def build_format(c):
@@ -328,11 +329,16 @@ def evaluate(env, c):
         expect("tty_uid", not re.match(rb"^\d+$", rec.get("tty_uid", b"")), "no uid (stdin closed)")
     elif ttypath == b"\x01NOTTY":
         eq("tty", b"(none)")
+        eq("ipaddr", b"-")
         expect("tty_uid", not re.match(rb"^\d+$", rec.get("tty_uid", b"")), "(none)")
         expect("tty_username", rec.get("tty_username") == rec.get("tty_uid") or not pw_known(rec.get("tty_username")), "(none)")
     else:
         eq("tty", ttypath)
         eq("tty_uid", ttyuid)
+        mt = re.match(rb"^/dev/pts/(\d+)$", ttypath)
+        if UTMP and mt and int(mt.group(1)) < 512:
+            # the generated login records give every pts line its own remote address
+            eq("ipaddr", b"10.77.%d.%d" % (int(mt.group(1)) >> 8, int(mt.group(1)) & 255))
         n = pw_name(int(ttyuid))
         if n is not None:
             eq("tty_username", n)
@@ -498,13 +504,13 @@ def interrupted_reads_phase(ctx, b):
 
 
 def main():
-    global VERSION, CONFIGURE, CONFIGURE_SECURE
+    global VERSION, CONFIGURE, CONFIGURE_SECURE, UTMP
     ctx = Ctx(PID, "exploration", RULE)
     b = ctx.run.build("ts-asan")
     cfgh = open(os.path.join(b["src"], "config.h")).read()
     VERSION = re.search(r'#define PACKAGE_VERSION "([^"]*)"', cfgh).group(1).encode()
     CONFIGURE = re.search(r'#define SNOOPY_CONFIGURE_COMMAND "(.*)"\n', cfgh).group(1).encode().replace(b'\\"', b'"')
-    ctx.assumptions = ["ipaddr and systemd_unit_name are only exercised (no oracle): the sandbox cannot shape utmp or systemd cgroups; "
+    ctx.assumptions = ["systemd_unit_name is only exercised (no oracle): the sandbox cannot shape systemd cgroups; ipaddr: /run/utmp is a generated file in the drivers' mount namespace (512 pts lines, each with its own remote address); "
                        "/etc/passwd, /etc/group and /etc/hosts are generated files bind-mounted inside the drivers' mount namespace (3000-byte GECOS, "
                        "200-byte login name, 400 group members, empty fields, duplicate uid, comment lines, no final newline; hosts: 1800-byte line, "
                        "commented entry, mixed-case name, last line without newline)", "names for ids without passwd/group entry: any placeholder that is not another account's name",
@@ -512,9 +518,11 @@ def main():
                        "states the sandbox refuses to construct (e.g. setresuid errors) are skipped and counted, never judged"]
     nw, per = (4, 350) if ctx.quick else (16, 2500)
     make_sysfiles(ctx.run.dir)
+    UTMP = os.path.join(ctx.run.dir, "utmp.generated")
+    drv.make_utmp(UTMP)
     bsec = dict(ctx.run.build("ts-plain"), name=SECURE, driver_kwargs={"secure": True})
     CONFIGURE_SECURE = re.search(r'#define SNOOPY_CONFIGURE_COMMAND "(.*)"\n', open(os.path.join(bsec["src"], "config.h")).read()).group(1).encode().replace(b'\\"', b'"')
-    pbt.run(ctx, {"ts-asan": b, SECURE: bsec}, strategy, evaluate, classify, nw, per, driver_kwargs={"binds": [(v, k) for k, v in sorted(SYSFILES.items())]})
+    pbt.run(ctx, {"ts-asan": b, SECURE: bsec}, strategy, evaluate, classify, nw, per, driver_kwargs={"binds": [(v, k) for k, v in sorted(SYSFILES.items())], "utmp": UTMP})
     if not ctx.replay:
         interrupted_reads_phase(ctx, b)
     ctx.finish()
